@@ -5,6 +5,13 @@ pipeline of DESIGN.md section 1.1 and applies the verdict rules of section 1.2.
 """
 import hashlib, json, os, random, re, subprocess, sys, time, traceback
 
+sys.path.insert(0, os.path.dirname(os.path.abspath(__file__)))
+import priv          # the one module that reaches private parts of pygls (names resolved fail-closed)
+
+# what a failing piece of a check may raise: priv.Unresolvable is a BaseException on purpose (the
+# harnesses' `except Exception` around library calls must not turn it into an observation)
+FAILURES = (Exception, priv.Unresolvable)
+
 ROOT = os.path.dirname(os.path.dirname(os.path.abspath(__file__)))
 REPO = os.environ.get("VERIF_REPO", "/repo")
 COQ = os.path.join(ROOT, "coq")
@@ -201,6 +208,8 @@ class Property:
     rule = ""
     assumptions = []
     trusted_base = []
+    private = []          # keys of harness/priv.py (private parts of pygls this check reaches), resolved
+                          # by run_check before any case is generated
 
     # --- to be provided by the property ---
     def generate(self, chk):            # -> list of JSON-able cases (corpus first)
@@ -290,7 +299,7 @@ def shrink_case(prop, chk, rec, budget=200):
                 break
             try:
                 r = evaluate(prop, chk, [cand])[0]
-            except Exception:
+            except FAILURES:
                 continue
             if r["verdict"] in ("violation", "tie"):
                 best, improved = r, True
@@ -331,7 +340,7 @@ def run_check(prop, tier="quick", seed=0, replay=None):
         try:
             if hasattr(prop, "regenerate"):
                 prop.regenerate(chk)
-        except Exception as e:
+        except FAILURES as e:
             gen_ok = False
             chk.notes.append("table regeneration failed: " + repr(e))
         ok, log = coq_make(prop.coq_targets)
@@ -351,12 +360,27 @@ def run_check(prop, tier="quick", seed=0, replay=None):
     # 3-5. correspondence
     results = []
     cases = []
+    # private parts of pygls the check reaches (harness/priv.py) are located now, in this thread.  One that
+    # cannot be located breaks the correspondence; it is not a failing input: NOTHING is then run against
+    # the tree (a harness that cannot see what it observes would produce artefacts, not observations)
+    priv_err = []
+
+    def unresolvable(e, where):
+        priv_err.append(str(e))
+        chk.notes.append("%s: %s - nothing (more) is run against this tree" % (where, e))
+    try:
+        chk.private_names = priv.preflight(prop.private)
+    except priv.Unresolvable as e:
+        unresolvable(e, "private part of pygls not located before the run")
     if replay:
         rp = json.load(open(replay if os.path.isabs(replay) else os.path.join(ROOT, replay)))
         cases = [rp["case"]] if rp.get("case") is not None else []
-    else:
+    elif not priv_err:
         try:
             cases = prop.generate(chk)
+        except priv.Unresolvable as e:
+            cases = []
+            unresolvable(e, "case generation")
         except Exception:
             # fail closed: a generator that cannot even build its cases against this tree (e.g. a
             # reflected name is gone) means the correspondence is broken, not that the check crashed
@@ -364,19 +388,25 @@ def run_check(prop, tier="quick", seed=0, replay=None):
             chk.notes.append("case generation failed: " + traceback.format_exc()[-2500:])
             proofs_ok = False
     err = None
-    if driver_ok and cases:
+    if driver_ok and cases and not priv_err:
         try:
             results = evaluate(prop, chk, cases)
+        except priv.Unresolvable as e:
+            unresolvable(e, "evaluation")
         except Exception as e:
             err = traceback.format_exc()
             chk.notes.append("evaluation failed: " + err[-3000:])
     extra_viol = []
-    if not replay:
+    if not replay and not priv_err:
         try:
             extra_viol = prop.extra_checks(chk) or []
+        except priv.Unresolvable as e:
+            unresolvable(e, "extra checks")
         except Exception:
             err = traceback.format_exc()
             chk.notes.append("extra checks failed: " + err[-3000:])
+    if priv_err:
+        proofs_ok = False
     # 6. verdict
     known = {(k["property"], k["class"]): k for k in load_known() if k.get("status") == "known"}
     viol = [r for r in results if r["verdict"] == "violation"]
@@ -402,10 +432,10 @@ def run_check(prop, tier="quick", seed=0, replay=None):
     if not viol and (ties or not proofs_ok or err or not driver_ok):
         # the property is no longer shown to hold; search for a failing input
         found = []
-        if not replay:
+        if not replay and not priv_err:
             try:
                 found = prop.search(chk) or []
-            except Exception:
+            except FAILURES:
                 chk.notes.append("search failed: " + traceback.format_exc()[-1500:])
         if found:
             violations.append((write_replay(prop, found[0]), ""))
@@ -415,6 +445,9 @@ def run_check(prop, tier="quick", seed=0, replay=None):
                 s = shrink_case(prop, chk, ties[0]) if not replay else ties[0]
                 what = dict(s)
                 what["broken"] = "correspondence impl = model"
+            elif priv_err:
+                what = {"case": None, "broken": "private part of pygls not located (harness/priv.py): "
+                                                  + "; ".join(priv_err), "notes": chk.notes}
             elif broken_obl or not ok or not gen_ok:
                 what = {"case": None, "broken": "proof obligations / build",
                         "obligations": broken_obl, "log": (log[-1500:] if not ok else raw[-1500:])}
